@@ -36,7 +36,7 @@ ASSUMPTIONS = [
 EXPECTED_PROBES = ["iter_resumed_after_deeper_build", "iter_resumed_after_clear_cache", "iter_resumed_after_recreate",
                    "below_compacted_depth", "jump_ahead_3", "mesh_basis", "two_classes_interleaved",
                    "basis_elem_of_new_length", "empty_level_reached", "long_membership_on_fresh_object",
-                   "is_subclass", "first_iter", "interrupted_call"]
+                   "is_subclass", "first_iter", "interrupted_call", "class_object_address_reused"]
 
 
 def plan(tier):
@@ -153,8 +153,10 @@ def gen_case(rng, tier):
             elif rr < 0.75:
                 other = common.gen_classical_basis(rng) if rng.random() < 0.7 else common.gen_mesh_basis(rng, max_patts=1)
                 ops.append({"op": "other_class", "basis": other, "form": common.gen_form(rng, other), "n": rng.randint(0, 4)})
-            elif rr < 0.9:
+            elif rr < 0.84:
                 ops.append({"op": "drop", "cls": c})
+            elif rr < 0.9:
+                ops.append({"op": "recycle", "n": rng.randint(0, 3)})
             else:
                 ops.append({"op": "gc"})
     for iid in live:
@@ -404,6 +406,31 @@ def execute(case):
             gc.collect()
             out.fault("drop_reference")
             hist.log.add("drop", idx, c)
+        elif kind == "recycle":
+            # every class object is dropped for good (handles, class cache, gc) and the classes are
+            # created again in another order: the new objects tend to be allocated where the old
+            # ones were, so anything remembered per object identity is now attached to the wrong class
+            old_ids = {id(h) for h in handles if h is not None}
+            for ci in range(len(handles)):
+                handles[ci] = None
+            pm.Av.clear_cache()
+            gc.collect()
+            epoch["clear"] += 1
+            order = list(range(len(classes)))
+            order = order[1:] + order[:1]
+            for ci in order:
+                handles[ci] = common.mk_av(classes[ci]["basis"], "list")
+                if id(handles[ci]) in old_ids:
+                    out.probe("class_object_address_reused")
+            out.fault("recycle_class_objects")
+            hist.log.add("recycle", idx)
+            for ci in order:
+                qop = {"op": "count", "n": min(op["n"], classes[ci]["nmax"])}
+                resp = avops.run_query(handles[ci], qop)
+                bad = avops.check_query(refs[ci], qop, resp, classes[ci]["ref_max"])
+                if bad:
+                    hist.violate(bad[0], dict(traits[ci], **dict(bad[1], after="recycle")), f"after recycling the class objects, {qop} on class {ci}: {bad[2]}")
+                    break
         elif kind == "gc":
             gc.collect()
             out.fault("gc_collect")
